@@ -307,13 +307,22 @@ func (v *Validator) getActionsInSet(uids []types.EntityUID) []types.EntityUID {
 }
 
 func (v *Validator) isActionDescendant(actionUID, ancestorUID types.EntityUID) bool {
-	action := v.schema.Actions[actionUID]
-	for parent := range action.Entity.Parents.All() {
-		if parent == ancestorUID {
-			return true
-		}
-		if v.isActionDescendant(parent, ancestorUID) {
-			return true
+	// Walk the action hierarchy with a visited set: an action group can be reached along
+	// exponentially many paths (layered groups), and each must be expanded only once.
+	visited := map[types.EntityUID]struct{}{actionUID: {}}
+	todo := []types.EntityUID{actionUID}
+	for len(todo) > 0 {
+		cur := todo[len(todo)-1]
+		todo = todo[:len(todo)-1]
+		for parent := range v.schema.Actions[cur].Entity.Parents.All() {
+			if parent == ancestorUID {
+				return true
+			}
+			if _, seen := visited[parent]; seen {
+				continue
+			}
+			visited[parent] = struct{}{}
+			todo = append(todo, parent)
 		}
 	}
 	return false
